@@ -1335,6 +1335,152 @@ func runHistory(ctx *vlib.Ctx, cfg config, seedName string, hist []op, verbose b
 	return res
 }
 
+// ---------- family "slow consumer": one long history per configuration ----------
+
+// A slow subscriber never reads its feed; fast subscribers are drained after
+// every write. More writes than the feed buffer holds are performed. The fast
+// feeds must hold every successful matching write exactly once, in order; the
+// slow feed must hold exactly the writes it had room for (the first cap(Feed)),
+// and no write may panic or block.
+type slowVariant struct {
+	name string
+	subs []op // in registration order
+	slow int  // index of the subscription that is never drained
+}
+
+var slowVariants = []slowVariant{
+	{"slow-consumer/slow,fast", []op{{Kind: "sub", Q: 0, Priv: 0}, {Kind: "sub", Q: 0, Priv: 0}}, 0},
+	{"slow-consumer/fast(V==1),slow,fast", []op{{Kind: "sub", Q: 1, Priv: 0}, {Kind: "sub", Q: 0, Priv: 0}, {Kind: "sub", Q: 0, Priv: 1}}, 1},
+}
+
+func slowConsumer(ctx *vlib.Ctx, cfg config, v slowVariant, verbose bool) {
+	var c violator
+	w, err := newWorld(cfg)
+	if err != nil {
+		ctx.EngineError("cannot set up database for %v: %v", cfg, err)
+		return
+	}
+	defer w.close()
+	m := newModel(cfg)
+	wit := witness{Config: cfg, Seed: v.name, Text: v.name + ": subscriptions " + histString(v.subs) + "; cap(Feed)+2 puts alternating a/1,a/2 and V=1,0; delete(a/1); PushUpdate (injected)"}
+	site := "slow-consumer"
+	var steps int64
+	bad := false
+	var slowWant []snap
+	run := func(o op, label string) bool {
+		steps++
+		var ob observed
+		p, stack := vlib.Catch(func() { ob = w.do(o) })
+		if p != nil {
+			c.Violate("no-panic", site, vlib.PanicSite(stack), fmt.Sprintf("%v, %s, at %s: panic: %v", cfg, v.name, label, p), wit)
+			return false
+		}
+		x := m.apply(o)
+		if (x.res == "ok") != (ob.err == nil) && o.Kind != "push" {
+			ctx.EngineError("reference store out of step with the implementation (not a C14 clause): %v, %s, at %s: reference says %s, implementation returned err=%v", cfg, v.name, label, x.res, ob.err)
+			return false
+		}
+		for i, s := range w.subs {
+			if i == v.slow {
+				room := cap(s.Feed) - len(slowWant)
+				for _, d := range x.deliver[i] {
+					if room > 0 {
+						slowWant = append(slowWant, d)
+						room--
+					}
+				}
+				continue
+			}
+			got, closed := drain(s)
+			if verbose && (len(got) != len(x.deliver[i]) || steps%250 == 0) {
+				fmt.Printf("  %s: feed s%d received %s (reference %s)\n", label, i, snapsString(got), snapsString(x.deliver[i]))
+			}
+			if !sameSnaps(got, x.deliver[i]) {
+				disc := "wrong-record"
+				switch {
+				case len(got) < len(x.deliver[i]):
+					disc = "missing-delivery"
+				case len(x.deliver[i]) == 0:
+					disc = "unexpected-delivery"
+				case len(got) > len(x.deliver[i]):
+					disc = "duplicate-delivery"
+				}
+				c.Violate("feed-holds-exactly-the-matching-writes", site, disc, fmt.Sprintf("%v, %s, at %s (s%d never reads its feed, which holds %d of %d): feed of s%d received %s, reference %s", cfg, v.name, label, v.slow, len(w.subs[v.slow].Feed), cap(w.subs[v.slow].Feed), i, snapsString(got), snapsString(x.deliver[i])), wit)
+				return false
+			}
+			if closed {
+				c.Violate("feed-closed-exactly-after-cancel", site, "closed-without-cancel", fmt.Sprintf("%v, %s, at %s: feed of s%d is closed", cfg, v.name, label, i), wit)
+				return false
+			}
+		}
+		return true
+	}
+	done := make(chan struct{})
+	go func() {
+		defer close(done)
+		for i, o := range v.subs {
+			if !run(o, fmt.Sprintf("subscribe #%d", i)) {
+				bad = true
+				return
+			}
+		}
+		n := cap(w.subs[v.slow].Feed) + 2
+		for i := 1; i <= n; i++ {
+			o := op{Kind: "put", Key: []string{"a/1", "a/2"}[i%2], V: (i / 2) % 2}
+			if !run(o, fmt.Sprintf("write #%d %v", i, o)) {
+				bad = true
+				return
+			}
+		}
+		tail := []op{{Kind: "del", Key: "a/1"}, {Kind: "put", Key: "a/1", V: 1}}
+		if cfg.Backend == "injected" {
+			tail = append(tail, op{Kind: "push", Key: "a/2", V: 1})
+		}
+		for _, o := range tail {
+			if !run(o, "after the overflow: "+o.String()) {
+				bad = true
+				return
+			}
+		}
+		// the slow subscriber: exactly the writes it had room for
+		got, closed := drain(w.subs[v.slow])
+		if verbose {
+			fmt.Printf("  slow feed s%d holds %d records (reference %d), closed=%v\n", v.slow, len(got), len(slowWant), closed)
+		}
+		if !sameSnaps(got, slowWant) || closed {
+			disc := "wrong-record"
+			switch {
+			case len(got) < len(slowWant):
+				disc = "missing-delivery"
+			case len(got) > len(slowWant):
+				disc = "duplicate-delivery"
+			}
+			first := 0
+			for first < len(got) && first < len(slowWant) && got[first] == slowWant[first] {
+				first++
+			}
+			c.Violate("feed-holds-exactly-the-matching-writes", site+"(slow feed)", disc, fmt.Sprintf("%v, %s: the never-read feed of s%d holds %d records, reference: the first %d matching writes; first difference at position %d", cfg, v.name, v.slow, len(got), len(slowWant), first), wit)
+			bad = true
+		}
+	}()
+	select {
+	case <-done:
+	case <-time.After(2 * time.Minute): // watchdog only: the scenario takes well under a second
+		c.Violate("write-does-not-block-on-full-feed", site, "blocked", fmt.Sprintf("%v, %s: a write did not return within two minutes (feed of s%d full)", cfg, v.name, v.slow), wit)
+		bad = true
+	}
+	ctx.Add(1, steps, 1)
+	ctx.NontrivialN(1)
+	if bad {
+		ctx.Outcome("slow-consumer:mismatch")
+	} else {
+		ctx.Outcome("slow-consumer:fast feeds complete, slow feed holds the first cap(Feed) writes")
+	}
+	if verbose {
+		fmt.Printf("slow consumer %v %s: %d steps, violation=%v\n", cfg, v.name, steps, bad)
+	}
+}
+
 // ---------- seeds ----------
 
 type seed struct {
@@ -1462,16 +1608,26 @@ func main() {
 			"each history replayed on a fresh real database (hashmap, bbolt, runtime registry injected) and on a reference (lists of subscriptions and hooks, map of records); after every step feeds are drained, hook calls, result and raw storage compared; " +
 			"states de-duplicated on (reference state, controller's registered subscriptions and hooks, raw storage); deepest level check-only and without subscribe/registerHook as last step (nothing to observe); " +
 			"plus two dedicated families: the complete matrix flags {none,secret,crownjewel,both} x subscriber privileges {LI,L-,-I,--} x writers {LI, LI+AlwaysMakeSecret, LI+AlwaysMakeSecret+AlwaysMakeCrownjewel, PushUpdate} (depth 2 from four subscriptions), and every triple of 7 hook kinds registered on one prefix followed by cancelHook and a read or write (order of the remaining hooks); " +
+			"and the family 'slow consumer' (one long history per backend and registration order: a never-read subscription and drained ones, cap(Feed)+2 alternating puts, delete, put, PushUpdate); " +
 			"non-trivial = histories whose last step delivered to a feed, called a hook, or cancelled a subscription or hook")
 		c.Assume("when several hooks are registered, each sees the record returned by the previous one (matching included); the harness's replacing hooks keep key, value and flags and only mark the record")
 		c.Assume("Interface.Delete, MakeSecret and InsertValue are a get followed by a put of the modified record: get-phase and put-phase hooks both apply to them")
 		c.Assume("results that do not involve a hook (not found, permission denied, storage errors) are taken from the reference store only to predict deliveries; a disagreement there is reported as an engine error, not as a C14 violation")
-		c.Assume("interfaces without cache; feed buffer (1000) never filled; the writer-vs-Cancel interleaving clause is decided by engine S")
+		c.Assume("interfaces without cache; a full feed buffer only in the family 'slow consumer' (what a full feed loses is not asserted, only that it keeps what it had room for); the writer-vs-Cancel interleaving clause is decided by engine S")
 
 		if c.Replay != "" {
 			var w witness
 			if _, err := c.LoadReplay(&w); err != nil {
 				c.EngineError("replay: %v", err)
+				return
+			}
+			if strings.HasPrefix(w.Seed, "slow-consumer/") {
+				for _, v := range slowVariants {
+					if v.name == w.Seed {
+						slowConsumer(c, w.Config, v, true)
+					}
+				}
+				flushViolations(c)
 				return
 			}
 			fmt.Printf("replaying on %v: %s\n", w.Config, histString(w.History))
@@ -1483,10 +1639,22 @@ func main() {
 		}
 
 		if !strings.Contains(strings.Join(os.Args, " "), "-budget") {
-			c.SetBudget(vlib.Pick(c, 150*time.Second, 25*time.Minute))
+			c.SetBudget(vlib.Pick(c, 150*time.Second, 20*time.Minute)) // the engine-S part runs afterwards with its own budget
 		}
-		pls := plans(c)
 		only := os.Getenv("VERIF_C14_ONLY") // development aid: restrict to one backend
+		// family "slow consumer" (not part of the BFS: one long history per configuration)
+		t0 := time.Now()
+		for _, cfg := range []config{{"hashmap", false}, {"hashmap", true}, {"bbolt", true}, {"injected", false}} {
+			if only != "" && cfg.Backend != only {
+				continue
+			}
+			for _, v := range slowVariants {
+				c.Scenario(fmt.Sprintf("[%s] %v", v.name, cfg))
+				slowConsumer(c, cfg, v, false)
+			}
+		}
+		fmt.Printf("[slow consumer] %d long histories (%.1fs)\n", 4*len(slowVariants), time.Since(t0).Seconds())
+		pls := plans(c)
 		for pi, pl := range pls {
 			if only != "" && pl.cfg.Backend != only {
 				continue
